@@ -76,7 +76,7 @@ FUNCTIONS = {
             ('select_c03', 'filter.Filter.global_setup')],
     'C11': [('shuffle_c11', 'shuffle.Shuffle.__init__'), ('shuffle_c11', 'shuffle.Shuffle.global_setup'),
             ('find_c15', 'options.get_options@paths')],       # "the same discovered tests": search directories in command-line order
-    'C15': [('find_c15', 'find.remove_stale_bytecode'), ('find_c15', 'options.get_options'), ('find_c15', 'options.get_options@paths'),
+    'C15': [('find_c15', 'find.remove_stale_bytecode'), ('find_c15', 'find.remove_stale_bytecode@prune'), ('find_c15', 'options.get_options'), ('find_c15', 'options.get_options@paths'),
             ('find_c14', 'find.walk_with_symlinks')],
     'C20': [('digraph_c20', 'digraph.DiGraph.sccs'), ('digraph_c20', 'digraph.DiGraph.sccs@partition'),
             ('digraph_c20', 'digraph.DiGraph.neighbors')],
@@ -87,7 +87,9 @@ FUNCTIONS = {
             ('runner_spawn', 'runner.spawn_layer_in_subprocess'), ('features_c18', 'runner.Runner.run'),
             ('find_c14', 'find.find_test_files'), ('runner_sched', 'runner.resume_tests'),
             ('configure_c03', 'runner.Runner.configure'),
-            ('shuffle_c11', 'shuffle.Shuffle.__init__'), ('shuffle_c11', 'shuffle.Shuffle.global_setup')],   # same order in every mode
+            ('shuffle_c11', 'shuffle.Shuffle.__init__'), ('shuffle_c11', 'shuffle.Shuffle.global_setup'),   # same order in every mode
+            # children see the same source tree: started in the directory the run was started from (relative search paths)
+            ('startdir_c03', '__init__.run_internal'), ('startdir_c03', 'runner.Runner.__init__')],
     'C06': [('runner_sched', 'runner.resume_tests'), ('runner_spawn', 'runner.spawn_layer_in_subprocess'),
             ('process_c07', 'process.SubProcess.report'),       # sentence 1 composes the lossless transfer (C07)
             # what of a child's stdout is kept for its block: everything but the keep-alive dot lines (regex lemma)
